@@ -4,6 +4,7 @@ import (
 	"fmt"
 	"go/types"
 	"path"
+	"reflect"
 	"sort"
 	"strings"
 
@@ -83,6 +84,20 @@ func (in *Interp) ginWrite(c *ginCtx, code *smt.Term, body value) {
 }
 
 func (P *Program) registerGinCompare() {
+	P.reg(VHGIN+".BodyIs", func(fr *frame, args []value) value {
+		in := fr.in
+		a := args[0].(structure)
+		respT := fr.fn.Signature.Params().At(0).Type()
+		ba := a[structField(respT, "Body")].(iface)
+		if ba.t == nil {
+			return in.C.False()
+		}
+		docs := ba.v.(*opaque).data.(sliceVal)
+		if len(docs) != 1 {
+			return in.C.False()
+		}
+		return in.deepEq(docs[0], args[1])
+	})
 	P.reg(VHGIN+".SameAnswer", func(fr *frame, args []value) value {
 		in := fr.in
 		a, b := args[0].(structure), args[1].(structure)
@@ -155,6 +170,89 @@ func (P *Program) registerGin() {
 			return iface{}
 		}
 	}
+	// ShouldBindQuery / BindQuery: the query string bound into a struct by its `form` tags
+	// ("name,default=v") with `binding:"required"` (a zero value after binding is an error). Modelled
+	// for string and integer fields; an unparsable number is a binding error.
+	bindQuery := func(must bool) intrinsic {
+		return func(fr *frame, args []value) value {
+			in := fr.in
+			c := ctxArg(fr, args)
+			fail := func(msg string) value {
+				if must {
+					if !c.committed {
+						c.status = in.C.BVConstI(400, 64)
+						c.committed = true
+					}
+					c.aborted = true
+				}
+				return in.mkError(msg)
+			}
+			dst := args[1].(iface)
+			dp, ok := dst.v.(*value)
+			if !ok || dp == nil {
+				return fail("binding: nil target")
+			}
+			st, ok := deref(dst.t).Underlying().(*types.Struct)
+			if !ok {
+				panic(unsupported{"ShouldBindQuery into a non-struct"})
+			}
+			sv := (*dp).(structure)
+			for i := 0; i < st.NumFields(); i++ {
+				f := st.Field(i)
+				tag := reflect.StructTag(st.Tag(i))
+				form, opts, _ := strings.Cut(tag.Get("form"), ",")
+				if form == "" {
+					form = f.Name()
+				}
+				if form == "-" {
+					continue
+				}
+				var def value
+				for _, o := range strings.Split(opts, ",") {
+					if strings.HasPrefix(o, "default=") {
+						def = strings.TrimPrefix(o, "default=")
+					}
+				}
+				v, present := c.query[form]
+				if !present {
+					v = def
+				} else if def != nil && in.branch(in.equals(types.Typ[types.String], v, "")) {
+					v = def
+				}
+				b, isBasic := f.Type().Underlying().(*types.Basic)
+				switch {
+				case v == nil:
+					// absent without default: the field keeps its value
+				case isBasic && b.Info()&types.IsString != 0:
+					sv[i] = v
+				case isBasic && b.Info()&types.IsInteger != 0:
+					if !in.branch(in.C.Not(in.equals(types.Typ[types.String], v, ""))) {
+						sv[i] = in.zero(f.Type()) // an empty value binds as zero
+						break
+					}
+					res := in.parseInt(v, 64, b.Info()&types.IsUnsigned == 0, "form binding").(tuple)
+					if e := res[1].(iface); e.t != nil {
+						return fail("binding: " + form + " is not a number")
+					}
+					n := res[0].(*smt.Term)
+					if w := in.widthOf(f.Type()); w < 64 {
+						n = in.C.Extract(n, w-1, 0)
+					}
+					sv[i] = n
+				default:
+					panic(unsupported{"ShouldBindQuery into a field of type " + f.Type().String()})
+				}
+				if strings.Contains(","+tag.Get("binding")+",", ",required,") {
+					if in.branch(in.equals(f.Type(), sv[i], in.zero(f.Type()))) {
+						return fail("binding: " + form + " is required")
+					}
+				}
+			}
+			return iface{}
+		}
+	}
+	P.reg(C+"ShouldBindQuery", bindQuery(false))
+	P.reg(C+"BindQuery", bindQuery(true))
 	P.reg(C+"Bind", bind(true))
 	P.reg(C+"BindJSON", bind(true))
 	P.reg(C+"ShouldBind", bind(false))
